@@ -189,9 +189,9 @@ class DimsCheck(Family):
         return out
 
 
-def _rows(rng, ncols, nmax, vmax, dup_share):
+def _rows(rng, ncols, nmax, vmax, dup_share, vmin=0):
     k = rng.randint(0, nmax)
-    rows = [[rng.randint(0, vmax) for _ in range(ncols)] for _ in range(k)]
+    rows = [[rng.randint(vmin, vmax) for _ in range(ncols)] for _ in range(k)]
     if rows and rng.random() < dup_share:
         for _ in range(rng.randint(1, 3)):
             rows.insert(rng.randint(0, len(rows)), list(rng.choice(rows)))
@@ -208,8 +208,10 @@ class Rows(Family):
         for _ in range(n):
             ncols = rng.randint(1, 3)
             vmax = rng.choice([1, 2, 3])
-            A = _rows(rng, ncols, 6, vmax, 0.5)
-            B = _rows(rng, ncols, 6, vmax, 0.5)
+            # integer rows of either sign (the helpers are documented for integer matrices)
+            vmin = rng.choice([0, 0, -1, -2, -3])
+            A = _rows(rng, ncols, 6, vmax, 0.5, vmin)
+            B = _rows(rng, ncols, 6, vmax, 0.5, vmin)
             out.append({"k": rng.choice(["ismember", "intersect", "setdiff", "union"]), "A": A, "B": B, "ncols": ncols})
         return out
 
@@ -241,7 +243,8 @@ class Rows(Family):
         for c, impl, m in zip(cases, impls, models):
             A, B = [tuple(r) for r in c["A"]], [tuple(r) for r in c["B"]]
             dupA = len(set(A)) != len(A)
-            tags = [c["k"], "dupA" if dupA else "nodupA", "emptyA" if not A else "", "emptyB" if not B else ""]
+            neg = any(v < 0 for r in A + B for v in r)
+            tags = [c["k"], "dupA" if dupA else "nodupA", "emptyA" if not A else "", "emptyB" if not B else "", "neg" if neg else "nonneg"]
             tags = [t for t in tags if t]
             # the set-algebra specification, computed independently here
             spec = None
